@@ -245,6 +245,13 @@ theorem IntIntMap_wire_interp (pm : PMap Int Int) :
   · rw [show Gen.C12IR.IntIntMap_toBytes = canonWire false from by decide, interpToBytes_correct]; rfl
   · rw [show Gen.C12IR.IntIntMap_toObject = canonWire false from by decide, interpReader_correct]; rfl
 
+
+/-- IntIntMap.SetMax: every statement of the method is `this.max = max; return this` — the model's `setMax` (the bound is
+    only read by IsFull) -/
+theorem IntIntMap_setMax_interp (dp : PDesc K V) (hash : K → Nat) (thr : Nat → Nat) (pm : PMap K V) (n : Nat) :
+    (runC n Gen.C12IR.IntIntMap_setMax (ofP pm)).map toP = some (PMap.step hash thr dp pm (.setMax n)).1 := by
+  rw [show Gen.C12IR.IntIntMap_setMax = canonSetMax from by decide]; exact canonSetMaxP_correct hash thr dp pm n
+
 end interpreted2
 
 end C12Gen
